@@ -8,7 +8,7 @@ import urlgen
 from core import dec, enc, show
 from urlgen import Stream, pick, qarg
 
-CREATORS = ("new", "bld", "mod", "jn", "pkl", "rt", "hr")
+CREATORS = ("new", "bld", "mod", "jn", "pkl", "rt", "hr", "hre")
 NONTRIVIAL_RULE = ("an op is non-trivial if its input or its implementation result contains a '%', a non-ASCII code point, "
                    "a URL delimiter (:/?#[]@), a dot segment, or is an error bucket; distinct = distinct op lines "
                    "(pure-Python run); counted by the harness on this run")
@@ -140,6 +140,9 @@ def describe_handle(full, h, depth=0):
         return "URL(str(" + describe_handle(full, int(f[2]), depth + 1) + "))"
     if op == "hr":
         return "URL(" + describe_handle(full, int(f[2]), depth + 1) + ".human_repr())"
+    if op == "hre":
+        d = describe_handle(full, int(f[2]), depth + 1)
+        return f"(u := {d}).with_host(u.host)"
     return f"#{h}"
 
 
@@ -196,7 +199,7 @@ class View:
             elif op in ("pkl",):
                 if int(f[1]) in t:
                     t.add(h)
-            elif op in ("rt", "hr"):
+            elif op in ("rt", "hr", "hre"):
                 if int(f[2]) in t:
                     t.add(h)
         return t
